@@ -975,6 +975,13 @@ func (c *Client) backwards(
 		verifiedHeader = interimHeader
 	}
 
+	// the chain of hash links must end in the very header that is going to be trusted
+	if !bytes.Equal(verifiedHeader.Hash(), newHeader.Hash()) {
+		return ErrInvalidHeader{
+			fmt.Errorf("header %X at height %d is not the one linked from the trusted header (%X)",
+				newHeader.Hash(), newHeader.Height, verifiedHeader.Hash())}
+	}
+
 	return nil
 }
 
